@@ -437,7 +437,45 @@ def rule_speciation(ctx):
         ctx.ob('C01-R5', cu, f'constant index {k} = {v}', ok, 'own field' if ok else f'Species.{k} receives `{norm(s[0].value) if s else None}`', nontrivial=False)
 
 
+def rule_cached_mutables(ctx):
+    """R6: a memoised function hands the *same* object to every caller.  If a
+    caller then zeroes entries of it in place (the LTO window masking does
+    exactly that to its per-mode fuel), the change leaks into every later
+    inventory.  So: no in-place element store on a local bound from a call of a
+    functools.cache'd repository function, unless it was copied first."""
+    prog = ctx.prog
+    from ..resolve import resolve_call
+    cached = {f.qualname: f for mod in prog.src_modules() if '/emissions/' in mod.relpath or mod.relpath.endswith('emissions/utils.py')
+              for f in mod.functions.values() if any('cache' in d for d in f.decorators())}
+    ctx.floor('C01-R6', len(cached), 3, 'memoised functions in the emissions package')
+    n = 0
+    for mod in prog.src_modules():
+        if '/emissions/' not in mod.relpath:
+            continue
+        for fi in mod.functions.values():
+            for t, st, how in stores_to(fi.node):
+                v = getattr(st, 'value', None)
+                if isinstance(t, ast.Name) and isinstance(v, ast.Call):
+                    callee = resolve_call(prog, fi, v)
+                    if callee is None or callee.qualname not in cached:
+                        continue
+                    n += 1
+                    name = t.id
+                    muts = [s2 for t2, s2, h2 in stores_to(fi.node) if isinstance(t2, ast.Subscript) and norm(t2.value) == name
+                            and s2.lineno > st.lineno]
+                    rebinds = [s2 for t2, s2, h2 in stores_to(fi.node) if isinstance(t2, ast.Name) and t2.id == name
+                               and s2.lineno > st.lineno and '.copy(' in norm(getattr(s2, 'value', ast.Constant(0)))]
+                    bad = [mu for mu in muts if not any(rb.lineno < mu.lineno for rb in rebinds)]
+                    ctx.ob('C01-R6', fi, f'{name} = {callee.name}(…) (memoised) is not modified in place', not bad,
+                           'only read, or copied before being changed' if not bad else
+                           (f'`{norm(bad[0])[:50]}` writes into the object the cache hands to every later caller: after one '
+                            'inventory in trajectory mode the approach/climb fuel stays zero for every later inventory '
+                            '(climb/descent fuel is then counted nowhere in LTO mode)'), line=(bad[0].lineno if bad else st.lineno))
+    ctx.ob('C01-R6', ('src/AEIC/emissions', '<package>'), f'{n} call sites of memoised functions examined', True, 'see above', nontrivial=False)
+
+
 def run(ctx):
+    rule_cached_mutables(ctx)
     rule_sum(ctx)
     rule_fuel(ctx)
     rule_amounts(ctx)
